@@ -3,6 +3,7 @@ import FractopoModel.Lemmas.SnapDriver
 import FractopoModel.Generated.Windows
 import FractopoModel.Generated.SnapConstants
 import FractopoModel.Props.C05
+import FractopoModel.Generated.ZCoordinates
 /-!
 # C03 — data that passes validation is analysable (the threshold contract between the two halves)
 
@@ -90,5 +91,16 @@ theorem C03_generated_raise {A U N : Type} (ord : SnapL.Ord) (dedupe : List Poly
           (fun l ep th => Snap.insertGeo l ep th) tr thr (some polys))
         len union_all u_is_multi u_is_line u_parts node_table branch_labels traces areas t allowed clipped (allowed + 2) = .error e := by
   rw [C01.C01_generated_pipeline ord dedupe polys_of is_ls crop len union_all u_is_multi u_is_line u_parts node_table branch_labels dist bdist t hdist hbd, h]
+
+/-! ### the z-coordinate gate in front of snapping and noding -/
+
+/-- **The clean-up runs as soon as ANY geometry has a Z value.** The regenerated `check_for_z_coordinates` is true iff some geometry (that has the attribute
+at all) has Z: a map with Z values on only some of its traces is cleaned before the 2-D snapping and noding work on it. -/
+theorem C03_generated_z_gate {G : Type} (has_attr has_z : G → Bool) (l : List G) :
+    Gen.check_for_z_coordinates has_attr has_z l = true ↔ ∃ g ∈ l, has_attr g = true ∧ has_z g = true := by
+  unfold Gen.check_for_z_coordinates
+  simp [List.any_eq_true]
+
+example : Gen.check_for_z_coordinates (fun _ => true) (fun g : Nat => g > 100) [1, 2, 300] = true := by decide
 
 end C03
